@@ -511,7 +511,10 @@ func (g *c18Gen) genOp(follow *followUp) (C18Op, *followUp) {
 		if _, l, ok := g.pickLoc(li, notWrapperItself); ok {
 			rd = g.render(l, g.r.p(0.5))
 		}
-		op := C18Op{Op: "move", Path: rd.path, Index: g.r.n(3)}
+		op := C18Op{Op: "move", Path: rd.path, Index: g.r.n(4) - 1, Dest: g.r.n(4) - 1}
+		if g.r.p(0.3) {
+			op.Dest = op.Index
+		}
 		g.decorate(&op, rd)
 		return op, nil
 	case x < 28:
